@@ -5,12 +5,14 @@ CONSTANTS
   MaxMods = 0
   FixShort = TRUE
   FixMid = TRUE
-  Tasks = {"db", "stage"}
+  Tasks = {"db", "stage", "first"}
   DbInputs <- MCDbInputs
   StageInputs <- MCStageInputs
+  FirstInputs <- MCFirstInputs
 INVARIANT StepBound
 INVARIANT DbTotalAndExact
 INVARIANT StagedExact
+INVARIANT FirstSeesAll
 PROPERTY Terminates
 CONSTRAINT DumpConstraint
 CHECK_DEADLOCK FALSE
